@@ -22,22 +22,21 @@ Import ListNotations.
 Open Scope nat_scope.
 
 (* delivery order: the handlers of the emitting plan in registration order, then its ancestors' handlers going
-   outward, the observers last *)
-Theorem C15_delivery_order : forall w lvl,
-  recipients w lvl = concat (rev (firstn (S lvl) (plans w))) ++ obsv w.
+   outward, last the observers registered for the event's type *)
+Theorem C15_delivery_order : forall w lvl e,
+  recipients w lvl e = concat (rev (firstn (S lvl) (plans w))) ++ obsv w e.
 Proof. exact recipients_order. Qed.
 
-(* exactly the handlers of the emitting plan and of its ancestors, and the observers -- nobody else ... *)
-Theorem C15_delivery_members : forall w lvl r,
-  In r (recipients w lvl) <-> In r (concat (firstn (S lvl) (plans w))) \/ In r (obsv w).
+(* exactly the handlers of the emitting plan and of its ancestors, and the observers of that event type -- nobody else ... *)
+Theorem C15_delivery_members : forall w lvl e r,
+  In r (recipients w lvl e) <-> In r (concat (firstn (S lvl) (plans w))) \/ In r (obsv w e).
 Proof. exact recipients_members. Qed.
 
 (* ... each exactly once: an event nobody aborts is one contiguous block holding every recipient once *)
 Theorem C15_delivered_once : forall w sid e log r,
-  NoDup (concat (plans w) ++ obsv w) -> In r (recipients w (level_of sid)) ->
-  exec w (PEmit sid e) None log = (log ++ block (recipients w (level_of sid)) sid e, false, []) /\
-  length (filter (fun en => match en with Deliv r' _ _ => r' =? r | Call => false end)
-                 (block (recipients w (level_of sid)) sid e)) = 1.
+  NoDup (concat (plans w) ++ obsv w e) -> In r (recipients w (level_of sid) e) ->
+  exec w (PEmit sid e) None log = (log ++ eblock w sid e, false, []) /\
+  length (filter (fun en => match en with Deliv r' _ _ => r' =? r | Call => false end) (eblock w sid e)) = 1.
 Proof.
   intros w sid e log r Hnd Hin. split; [apply emit_delivery|].
   apply count_block_once; [now apply recipients_nodup | exact Hin].
@@ -45,11 +44,19 @@ Qed.
 
 (* START first, FINISHED last, for every run_step call and EVERY abort index (also None): *)
 Theorem C15_step_bracketed : forall w sid sk ex body k,
-  recipients w (level_of sid) <> [] ->
+  recipients w (level_of sid) (start_of sk) <> [] -> recipients w (level_of sid) (fin_of sk) <> [] ->
   let l := fst (fst (exec w (PStep sid sk ex body) k [])) in
-  (exists post, l = Deliv (hd 0 (recipients w (level_of sid))) sid (start_of sk) :: post) /\
-  (exists pre r, l = pre ++ [Deliv r sid (fin_of sk)] /\ In r (recipients w (level_of sid))).
+  (exists post, l = Deliv (hd 0 (recipients w (level_of sid) (start_of sk))) sid (start_of sk) :: post) /\
+  (exists pre r, l = pre ++ [Deliv r sid (fin_of sk)] /\ In r (recipients w (level_of sid) (fin_of sk))).
 Proof. exact step_bracketed. Qed.
+
+(* ... and for every step at every nesting depth: whatever the abort index, no step stays open -- every step whose START
+   event was delivered to at least one recipient delivers its FINISHED event, and the FINISHED events come innermost
+   first ([scan] pushes a step at its START event and pops it at its FINISHED event only when it is the innermost one) *)
+Theorem C15_all_steps_closed : forall w, (forall lvl e, recipients w lvl e <> []) ->
+  forall ps k, Forall wf ps -> Forall quiet ps ->
+  scan (fst (fst (run_steps w ps k [] false))) [] = [].
+Proof. exact run_steps_closed. Qed.
 
 (* evaluation events of an optimizer step alternate START_EVALUATION / FINISHED_EVALUATION for every script, fault
    pattern and budget; a START_EVALUATION stays unmatched only when the evaluator raised or aborted inside it *)
@@ -67,7 +74,7 @@ Proof. exact evaluator_step_events. Qed.
 
 (* the run in which nobody aborts (or the abort index lies beyond the log): every event delivered to its full
    recipient list, every step returns its own exit code, the plan is not aborted *)
-Theorem C15_unaborted : forall w, (forall lvl, recipients w lvl <> []) ->
+Theorem C15_unaborted : forall w, (forall lvl e, recipients w lvl e <> []) ->
   forall ps, Forall wf ps -> Forall quiet ps -> forall k,
   (k = None \/ exists n, k = Some n /\ length (full_log w ps) <= n) ->
   run_steps w ps k [] false = (full_log w ps, exits (flat_map rets ps), false).
@@ -81,13 +88,13 @@ Qed.
    the aborted run's log is the unaborted log cut after entry k plus the FINISHED events of the open steps
    (innermost first), the plan is marked aborted, the steps containing entry k return USER_ABORT and every
    further run_step call is refused *)
-Theorem C15_prefix_closure : forall w, (forall lvl, recipients w lvl <> []) ->
+Theorem C15_prefix_closure : forall w, (forall lvl e, recipients w lvl e <> []) ->
   forall ps k, Forall wf ps -> Forall quiet ps ->
   fst (fst (run_steps w ps None [] false)) = full_log w ps /\
   fst (fst (run_steps w ps (Some k) [] false)) = predict w (full_log w ps) (Some k).
 Proof. exact prefix_closure. Qed.
 
-Theorem C15_abort_latches : forall w, (forall lvl, recipients w lvl <> []) ->
+Theorem C15_abort_latches : forall w, (forall lvl e, recipients w lvl e <> []) ->
   forall ps k, Forall wf ps -> Forall quiet ps ->
   let '(_, x, ab) := run_steps w ps (Some k) [] false in
   if k <? length (full_log w ps) then ab = true /\ x = top_rets w ps k
@@ -105,25 +112,31 @@ Theorem C15_once_aborted_every_step_refused : forall w ps k log,
   run_steps w ps k log true = (log, refused ps, true).
 Proof. exact run_steps_refused. Qed.
 
-(* non-vacuity: an outer plan with two handlers, a nested plan with one, one observer; an optimizer step with a
-   nested optimizer step, then an evaluator step; abort at the inner step's first START_EVALUATION delivery *)
+(* non-vacuity: three plan levels with two / one / one handlers, one observer of every event type and an abort callback
+   registered for START_EVALUATION only; an optimizer step with nested optimizations two levels deep, then an evaluator
+   step; abort at the innermost step's START_EVALUATION delivery to the abort callback *)
 Example C15_example :
-  let w := {| plans := [[1; 2]; [3]]; obsv := [9] |} in
-  let inner := PStep 100 SKOpt OptFinished (PSeq (PEmit 100 StartEval) (PSeq PCall (PEmit 100 FinEval))) in
-  let ps := [PStep 0 SKOpt OptFinished (PSeq inner (PSeq (PEmit 0 StartEval) (PSeq PCall (PEmit 0 FinEval))));
-             PStep 1 SKEval EvalFinished (PSeq (PEmit 1 StartEval) (PSeq PCall (PEmit 1 FinEval)))] in
-  wfb (nth 0 ps PSkip) && wfb (nth 1 ps PSkip) && quietb (nth 0 ps PSkip) && quietb (nth 1 ps PSkip) = true /\
-  length (full_log w ps) = 43 /\
-  recipients w 1 = [3; 1; 2; 9] /\ recipients w 0 = [1; 2; 9] /\
-  (let '(l, x, ab) := run_steps w ps (Some 8) [] false in
-   length l = 9 + 4 + 3 /\ ab = true /\
-   x = [(100, RExit UserAbort); (0, RExit UserAbort); (1, RPlanAborted)]).
+  let w := {| plans := [[1; 2]; [3]; [4]]; obsv := fun e => match e with StartEval => [9; 30] | _ => [9] end |} in
+  let ev sid := PSeq (PSeq (PEmit sid StartEval) PCall) (PEmit sid FinEval) in
+  let inner := PStep 200 SKOpt OptFinished (ev 200) in
+  let middle := PStep 100 SKOpt OptFinished (PSeq inner (ev 100)) in
+  let ps := [PStep 0 SKOpt OptFinished (PSeq middle (ev 0)); PStep 1 SKEval EvalFinished (ev 1)] in
+  forallb wfb ps && forallb quietb ps = true /\
+  recipients w 2 StartEval = [4; 3; 1; 2; 9; 30] /\ recipients w 0 FinEval = [1; 2; 9] /\
+  length (full_log w ps) = 68 /\
+  (let '(l, x, ab) := run_steps w ps (Some 17) [] false in
+   nth 17 l Call = Deliv 30 200 StartEval /\
+   skipn 18 l = eblock w 200 FinOpt ++ eblock w 100 FinOpt ++ eblock w 0 FinOpt /\
+   ab = true /\
+   x = [(200, RExit UserAbort); (100, RExit UserAbort); (0, RExit UserAbort); (1, RPlanAborted)] /\
+   scan l [] = []).
 Proof. vm_compute. repeat split; reflexivity. Qed.
 
 Print Assumptions C15_delivery_order.
 Print Assumptions C15_delivery_members.
 Print Assumptions C15_delivered_once.
 Print Assumptions C15_step_bracketed.
+Print Assumptions C15_all_steps_closed.
 Print Assumptions C15_evaluations_paired.
 Print Assumptions C15_evaluator_step_events.
 Print Assumptions C15_unaborted.
